@@ -30,7 +30,7 @@ var zooConfigs = []string{
 	// 0: everything at once
 	`{"servers":{"s":{"listen":[":0"],"automatic_https":{"disable":true},"routes":[
 	  {"handle":[{"handler":"vars","v":"{http.request.header.X-In}","l":["static","{http.request.uri.query.q}"],"o":{"k":"{http.request.header.X-In}"}}]},
-	  {"handle":[{"handler":"map","source":"{http.request.uri.query.q}","destinations":["{m}"],"mappings":[{"input":"plain","outputs":["mapped-{http.request.header.X-In}"]}],"defaults":["{http.request.header.X-In}"]}]},
+	  {"handle":[{"handler":"map","source":"{http.request.uri.query.q}","destinations":["{m}"],"mappings":[{"input":"plain","outputs":["mapped-{http.request.header.X-In}"]},{"input_regexp":"^x(.*)$","outputs":["cap-${1}-end"]}],"defaults":["{http.request.header.X-In}"]}]},
 	  {"handle":[{"handler":"headers","request":{"set":{"X-Req":["{http.request.uri.query.q}"]}},"response":{"set":{"X-Resp":["{http.vars.v}|{http.request.header.X-In}|{m}|{http.request.cookie.c}"]},"add":{"X-Add":["{http.request.uri.path}"]}}}]},
 	  {"handle":[{"handler":"rewrite","uri":"/r{http.request.uri.path}?z={http.request.uri.query.q}&{http.request.uri.query}"}]},
 	  {"handle":[{"handler":"static_response","headers":{"X-Static":["{http.request.host}|{http.vars.l}"]},"body":"v={http.vars.v} l={http.vars.l} o={http.vars.o} m={m} xreq={http.request.header.X-Req} uri={http.request.uri} cookie={http.request.cookie.c} host={http.request.host} q={http.request.uri.query.q} unk={zz.unk}"}]}
@@ -150,7 +150,9 @@ func zooServer(cfgIdx int) (*caddyhttp.Server, func(), error) {
 }
 
 func genZoo(rng *core.Rand, emit func(string)) {
-	av := append(attackerValues(), "{env.VERIF_C18_ZOO_ADMIN}", zooAdmin, "{http.regexp.r.1}", "{http.error.message}", "{m}", "{http.request.cookie.c}")
+	av := append(attackerValues(), "{env.VERIF_C18_ZOO_ADMIN}", zooAdmin, "{http.regexp.r.1}", "{http.error.message}", "{m}", "{http.request.cookie.c}",
+		// values the map handler's regexp mapping `^x(.*)$` captures: the captured request text must stay text
+		"x{env."+secretEnv+"}", "x{file."+fileToken+"}", "xplain", "x{http.request.header.X-In}")
 	paths := []string{"/", "/p", "/{env." + secretEnv + "}", "/a/{http.vars.v}", "/{zz.unk}", "/{env.VERIF_C18_ZOO_ADMIN}",
 		"/x%7Benv." + secretEnv + "%7D", "/{file." + fileToken + "}", "/a\\{b",
 		"/f/a%3Fq=%7Benv." + secretEnv + "%7D", "/u/a%3F%7Benv." + secretEnv + "%7D", "/d/x%3F%7Benv." + secretEnv + "%7D", "/f/%3F{env." + secretEnv + "}"}
